@@ -43,7 +43,7 @@ def gen_plan(rng, idx):
     vows = docgen.VOWS_ALL
     if route != 'server' and rng.random() < 0.15:
         enc = 'latin-1'
-        vows = 'aeiouäéø'
+        vows = 'aeiouäøï'
     W = docgen.Words(rng, nonascii=rng.choice([0.0, 0.3, 0.7]), vows_all=vows)
     ndocs = rng.choice([1, 1, 2, 3])
     docs = []
@@ -440,12 +440,24 @@ def evaluate(plan):
     expected = []       # per unit: list of (word, offset, length)
     for ui, (label, tex, eff) in enumerate(us):
         exp = []
+        seen = {}
         for sub in per_unit_subs[ui]:
             for w in targets:
                 if w in sub['text']:
-                    src = tex.find(w)
+                    # unique words: the only occurrence; words of a phrase
+                    # repeated verbatim (identical parts): the k-th submission
+                    # containing the word belongs to its k-th occurrence
+                    k = seen.get(w, 0)
+                    seen[w] = k + 1
+                    src = -1
+                    for _ in range(k + 1):
+                        src = tex.find(w, src + 1)
+                        if src < 0:
+                            break
                     if src < 0:
                         return core.harness('target %r not in source' % w)
+                    if k:
+                        probes['identical_parts'] = 1
                     exp.append((w, src, len(w)))
                     if w in dups:
                         exp.append((w, src, len(w)))
@@ -467,14 +479,36 @@ def evaluate(plan):
             return viol('order', unit=label, offsets=offs)
         sim = [r for r in reps if r.get('word') is not None]
         want_ms = sorted((w, o_, l) for (w, o_, l) in expected[ui])
+        # HTML lists overlapping messages separately, with a line number only:
+        # pair each with an expected flag of that word in that line which no
+        # main-table highlight accounts for
+        if any(r.get('overlap') for r in sim):
+            remaining = list(want_ms)
+            for q in sim:
+                if not q.get('overlap'):
+                    x = (q['word'], q['offset'], q['length'])
+                    if x in remaining:
+                        remaining.remove(x)
+            starts = shellscen.line_starts(tex)
+            for r in [r for r in sim if r.get('overlap')]:
+                n = r['line']
+                lo = starts[n - 1]
+                hi = starts[n] if n < len(starts) else len(tex)
+                cand = [x for x in remaining
+                        if x[0] == r['word'] and lo <= x[1] < hi]
+                if cand:
+                    r['offset'] = cand[0][1]
+                    remaining.remove(cand[0])
         got_ms = sorted((r['word'], r['offset'],
                          r['length'] if r['length'] is not None else len(r['word']))
                         for r in sim)
         if want_ms != got_ms:
             # classify for the minimiser
-            wd = {w: o_ for (w, o_, l) in want_ms}
-            bad = [(r['word'], r['offset'], wd.get(r['word'])) for r in sim
-                   if wd.get(r['word']) != r['offset']]
+            wd = {}
+            for (w, o_, l) in want_ms:
+                wd.setdefault(w, set()).add(o_)
+            bad = [(r['word'], r['offset'], sorted(wd.get(r['word'], [])))
+                   for r in sim if r['offset'] not in wd.get(r['word'], ())]
             if len(want_ms) != len(got_ms) and not bad:
                 return viol('location:count', unit=label, want=len(want_ms),
                             got=len(got_ms))
@@ -482,8 +516,7 @@ def evaluate(plan):
                 w, g, e = bad[0]
                 return viol('location:offset', unit=label, word=w, got=g,
                             want=e, got_lc=shellscen.offset_to_lc(tex, max(0, min(g, len(tex)))),
-                            want_lc=(shellscen.offset_to_lc(tex, e)
-                                     if e is not None else None))
+                            want_lc=[shellscen.offset_to_lc(tex, x) for x in e])
             return viol('location:length', unit=label, want=want_ms[:4],
                         got=got_ms[:4])
         for r in sim:
@@ -694,7 +727,7 @@ def collect_reports(plan, obs, us):
                     c = lines[n - 1].find(hl) if hl else -1
                     r = {'offset': (starts[n - 1] + c) if c >= 0 else -1,
                          'length': len(hl), 'word': w, 'problems': [],
-                         'overlap': True}
+                         'overlap': True, 'line': n}
                     if w is not None and hl != w:
                         r['problems'].append('highlight: overlap marked %r '
                                              'instead of the flagged word' % hl)
